@@ -365,7 +365,7 @@ def run(ctx):
     spot = [17, 31, 32, 33, 63, 64] if ctx.quick else []
     fsm = FULL_NODE_SWAP_MAX_N if ctx.quick else 32
     items = [(N, n, False, fsm) for n in full] + [(N, n, True, fsm) for n in spot]
-    items.sort(key=lambda it: -it[1])
+    items.sort(key=lambda it: it[1])       # smallest blocks first: the violation kept per signature is the simplest
     ctx.pmap(work, items)
     w = world(N)
     ctx.res.sample({'block_size': 3, 'index': 2, 'genuine_proof': genuine(w, 3, 2),
